@@ -795,6 +795,9 @@ class Interp:
         stop_states = {}
         iters = 0
         es = self.edges.setdefault(frame.fid, set())
+        if not hasattr(self, "edges_tok"):
+            self.edges_tok = {}
+        est = self.edges_tok.setdefault(frame.fid, set())
         while work:
             key = min(work, key=lambda x: (order.get(x[0], 1 << 30), repr(x[1])))
             work.discard(key)
@@ -810,9 +813,12 @@ class Interp:
                     # (via, target): an edge out of a block that was executed fused with its predecessor
                     es.add((b, succ[0]))
                     es.add((succ[0], succ[1]))
+                    est.add((b, succ[0], key[1]))
+                    est.add((succ[0], succ[1], s2.token))
                     succ = succ[1]
                 else:
                     es.add((b, succ))
+                    est.add((b, succ, key[1]))
                 if succ == "return":
                     exits.append(s2)
                     continue
